@@ -40,7 +40,11 @@ fn supervisor_step(node: &mut CNode) -> bool {
 }
 
 pub fn c07_election() {
-    unsafe { vstd::vfs::ENV.push(("NUN_ELECTION_TIMEOUT", "4")); }
+    // early > 0: a handler sleeping in a wait loop may also wake up (2 ms poll) while lines are still in flight, up to `early` times
+    // (fewer than the ticks of the election timeout, so no timeout fires because of them)
+    let early = vsym::param("early", 0);
+    unsafe { vstd::vfs::ENV.push(("NUN_ELECTION_TIMEOUT", if early > 0 { "12" } else { "4" })); }
+    let mut early_left = early;
     let secondaries = vsym::param("secondaries", 1);
     let mut nodes = vec![mk_cnode("n1", 1, ClusterRole::Primary)];
     let mut i = 0;
@@ -64,10 +68,13 @@ pub fn c07_election() {
     let triggers = vsym::param("triggers", 1);
     let mut t = 0;
     while t < triggers {
-        let at = vsym::choice("trigger-at", nodes.len());
+        // war = 1: a secondary claims the primary role while the primary is alive (what the timeout branches of start_election do:
+        // election_win, reached through the `election win` command); the primary must win it back
+        let war = vsym::param("war", 0) == 1;
+        let at = if war { 1 + vsym::choice("rival", nodes.len() - 1) } else { vsym::choice("trigger-at", nodes.len()) };
         vsym::tag_i("trigger-at", at as i64);
         let dbs = nodes[at].dbs.clone();
-        client_jobs.push(vsym::spawn_suspended(move || { let (mut c, _rx) = admin_client(&dbs); process_request("debug force-election", &dbs, &mut c); c }));
+        client_jobs.push(vsym::spawn_suspended(move || { let (mut c, _rx) = admin_client(&dbs); process_request(if war { "election win" } else { "debug force-election" }, &dbs, &mut c); c }));
         t += 1;
     }
     let mut started = 0;
@@ -90,6 +97,13 @@ pub fn c07_election() {
             if links[l].out_rx.len() > 0 && links[l].server.is_some() { ev.push((0, l)); }
             if links[l].server_rx.len() > 0 && links[l].conn.is_some() { ev.push((1, l)); }
             l += 1;
+        }
+        let deliverable = ev.len();
+        if deliverable > 0 && early_left > 0 && deviations_left > 0 {
+            // early poll wake-ups: never the default choice
+            let mut j = 0; while j < client_jobs.len() { if j < started && !client_done[j] { ev.push((5, j)); } j += 1; }
+            let mut l = 0;
+            while l < links.len() { if links[l].server_job.is_some() { ev.push((6, l)); } if links[l].conn_job.is_some() { ev.push((7, l)); } l += 1; }
         }
         if ev.len() == 0 {
             // nothing can be delivered: ONE sleeping handler takes a timer tick (the first by default, any other costs a deviation);
@@ -115,7 +129,13 @@ pub fn c07_election() {
         let pick = if ev.len() > 1 && deviations_left > 0 { let d = vsym::choice("deliver", ev.len()); if d > 0 { deviations_left -= 1; } d } else { 0 };
         let (kind, idx) = ev[pick];
         if vsym::param("trace", 0) == 1 { vsym::tag(&["ev", &kind.to_string(), ".", &idx.to_string()].concat()); }
-        if kind == 9 { if vsym::resume(&client_jobs[idx]) { client_done[idx] = true; } started += 1; }
+        if kind >= 5 && kind <= 7 {
+            early_left -= 1; vsym::cover("early-wake-up", true);
+            if kind == 5 { if vsym::resume(&client_jobs[idx]) { client_done[idx] = true; } }
+            else if kind == 6 { if vsym::resume(links[idx].server_job.as_ref().unwrap()) { links[idx].server = Some(vsym::take(links[idx].server_job.take().unwrap())); } }
+            else { if vsym::resume(links[idx].conn_job.as_ref().unwrap()) { links[idx].conn = Some(vsym::take(links[idx].conn_job.take().unwrap())); } }
+        }
+        else if kind == 9 { if vsym::resume(&client_jobs[idx]) { client_done[idx] = true; } started += 1; }
         else if kind == 0 {
             let line = links[idx].out_rx.try_next().unwrap().unwrap();
             let mut server = links[idx].server.take().unwrap();
